@@ -18,7 +18,9 @@ Model: `HcipyVerif/Model/Cache.lean` (the instance cache of `AgnosticOpticalElem
   exactly as a freshly constructed element with the current parameters would.
 * `transparent_results` — the same with instance *contents*: the hypothesis "what an instance
   returns is a function of (key, parameter version)" is explicit (`ObservablyPure`), and needed
-  (`content_hypothesis_needed`).  `truthful_needed`: so is `Truthful`.
+  (`content_hypothesis_needed`), and discharged for instances that own a memo cell
+  (`memo_content_pure`, `transparent_results_memo`: what driver op `reqc` runs).  `truthful_needed`:
+  so is `Truthful`.
 * `decorator_history_dependent` — `make_agnostic_optical_element` is **not** transparent (open finding);
   `decorator_forward_transparent` — its forward requests are.
 * The Fourier objects owned by the instances: memo cells (`FourierFilter`, `ChirpZTransform`,
